@@ -25,7 +25,7 @@
    chain"), and anything about histories with SetHead or header imports beyond the refutations
    (checked by the direct oracle and the correspondence after every operation). *)
 From Coq Require Import NArith List.
-From AQ Require Import Chain.Store Chain.ChainSpec Chain.ChainProofs Chain.Crash Chain.ChainReopen Chain.ChainCanon Chain.ChainWitness.
+From AQ Require Import Chain.Store Chain.ChainSpec Chain.ChainProofs Chain.Crash Chain.ChainReopen Chain.ChainCanon Chain.ChainAllOps Chain.ChainAllOpsWitness Chain.ChainWitness.
 Import ListNotations.
 Local Open Scope N_scope.
 
@@ -107,6 +107,49 @@ Theorem C03_canon_data_present_with_reopen : forall (U : N -> sblock) (g : heade
   canon_data_present (run ops (pre_open g)).
 Proof. exact canon_data_present_with_reopen. Qed.
 Print Assumptions C03_canon_data_present_with_reopen.
+
+(* ---- what survives EVERY operation: InsertChain, InsertHeaderChain, SetHead, Rollback, close/reopen in
+   any order, any validity oracle and coins, including the state an operation leaves when it ends in an
+   error, a panic or an unmodelled branch.  Given the refuted clauses (stale entries above the head, lookup
+   entries and receipts of rewound blocks, orphaned side headers) presence/absence cannot be promised;
+   what holds is that no record on disk is ever wrong about content ([Sound], Chain/ChainAllOps.v):
+     header / body / hash->number records are the universe's; a stored TD is the universe's TD;
+     the number index maps a height only to a block of that height;
+     a lookup entry names a block that contains the transaction at that index, with its number;
+     a stored non-genesis header is one above its parent (number and TD);
+   and the in-memory heads are universe blocks ([MemOK]).  The debris the known findings leave is
+   therefore always *well-formed* debris: entries of real blocks at their own heights. *)
+Theorem C03_content_sound_all_ops : forall (U : N -> sblock) (utd : N -> N) (g : header),
+  U (h_hash g) = (g, []) -> h_number g = 0 -> utd (h_hash g) = h_diff g -> h_parent g = 0 ->
+  forall ops, wf_ops U utd ops ->
+  Sound U utd g (dsk (run ops (pre_open g))) /\ MemOK U (run ops (pre_open g)).
+Proof. exact sound_all_ops. Qed.
+Print Assumptions C03_content_sound_all_ops.
+
+Theorem C03_canon_height_all_ops : forall (U : N -> sblock) (utd : N -> N) (g : header),
+  U (h_hash g) = (g, []) -> h_number g = 0 -> utd (h_hash g) = h_diff g -> h_parent g = 0 ->
+  forall ops, wf_ops U utd ops ->
+  forall n h, canon (dsk (run ops (pre_open g))) n = h -> h <> 0 -> h_number (fst (U h)) = n.
+Proof. exact canon_height_all_ops. Qed.
+Print Assumptions C03_canon_height_all_ops.
+
+Theorem C03_lookup_content_all_ops : forall (U : N -> sblock) (utd : N -> N) (g : header),
+  U (h_hash g) = (g, []) -> h_number g = 0 -> utd (h_hash g) = h_diff g -> h_parent g = 0 ->
+  forall ops, wf_ops U utd ops ->
+  forall t h n i, lookup_of (dsk (run ops (pre_open g))) t = Some (h, n, i) ->
+    n = h_number (fst (U h)) /\ nth_error (snd (U h)) (N.to_nat i) = Some t.
+Proof. exact lookup_content_all_ops. Qed.
+Print Assumptions C03_lookup_content_all_ops.
+
+(* non-vacuity: the premises are met by a history that uses all five operations, and it leaves a
+   populated database behind *)
+Example C03_all_ops_example : wf_ops Uw utdw ops_all /\
+  Uw (h_hash wg) = (wg, []) /\ h_number wg = 0 /\ utdw (h_hash wg) = h_diff wg /\ h_parent wg = 0.
+Proof. exact ops_all_wf. Qed.
+Example C03_all_ops_result :
+  let s := run ops_all (init_state wg) in
+  s_hash (cur_block s) = 5 /\ td_of (dsk s) 6 = Some 350 /\ canon (dsk s) 1 = 5 /\ lookup_of (dsk s) 7 = Some (5, 1, 0).
+Proof. exact ops_all_result. Qed.
 
 (* import-only histories: the head block and every stored block come with body,
    state and total difficulty, and their stored ancestry reaches genesis one number
